@@ -188,7 +188,7 @@ class Uniform(Prior):
             self.scale_factor = 1.
 
     def lnprob(self, p):
-        if p < self.lower_bound or p > self.upper_bound:
+        if not self.lower_bound <= p <= self.upper_bound:
             return -np.inf
         # For a uniform prior, the value is always the same, so precompute it
         return self._lnprob
@@ -196,7 +196,7 @@ class Uniform(Prior):
         # return stats.uniform.logpdf(p, self.lower_bound, self.upper_bound)
 
     def prob(self, p):
-        if p < self.lower_bound or p > self.upper_bound:
+        if not self.lower_bound <= p <= self.upper_bound:
             return 0
         return 1/self.interval
 
@@ -286,7 +286,7 @@ class BoundedGaussian(Gaussian):
         """Note that this does not return the actual log-probability, but
         a value proportional to it.
         """
-        if p < self.lower_bound or p > self.upper_bound:
+        if not self.lower_bound <= p <= self.upper_bound:
             return -np.inf
         else:
             return super().lnprob(p)
@@ -295,7 +295,7 @@ class BoundedGaussian(Gaussian):
         """Note that this does not return the actual probability, but
         a value proportional to it.
         """
-        if p < self.lower_bound or p > self.upper_bound:
+        if not self.lower_bound <= p <= self.upper_bound:
             return 0
         else:
             return super().prob(p)
